@@ -153,12 +153,21 @@ def _unit_seq(c, tag, N):
     return r
 
 
-@obligation("estimator/cazac_exact", params=[{"variant": v, "ant": a, "norm": n} for v in ("plain", "occ") for a in (1, 2) for n in (False, True)],
+@obligation("estimator/cazac_exact", params=[{"variant": v, "ant": a, "norm": n} for v in ("plain", "occ", "occ_flat") for a in (1, 2)
+                                             for n in (False, True, "np.bool_(True)")],
             timeout=200,
             desc="CAZAC-based estimators with a symbolic unit-amplitude reference sequence of 4 subcarriers and a symbolic channel with 2 taps "
                  "(inside the kept window): the noise-free estimate equals the DFT of the taps exactly (size_multiplier 1; cover-code variant "
-                 "averaging the two slots), for 1 and 2 receive antennas, normalised reference or not")
+                 "averaging the two slots, buffer with the cover-code dimension or flat = extra_dimension False), for 1 and 2 receive "
+                 "antennas, normalisation flag False / True / numpy bool; frame: the caller's receive buffer keeps its shape and "
+                 "entries, a second estimate from the same buffer returns the same")
 def ob_estimator(variant, ant, norm):
+    if norm == "np.bool_(True)":
+        norm = np.bool_(True)
+    flat = variant == "occ_flat"
+    if flat:
+        variant = "occ"
+
     def body(c, it):
         import pyphysim.reference_signals.channel_estimation as ce
         import pyphysim.reference_signals.dmrs as dmrs
@@ -198,11 +207,24 @@ def ob_estimator(variant, ant, norm):
                     Y[a, sl] = Hf[a] * rs[sl]
             if ant == 1:
                 Y = Y[0]
-            out = it.call(it.getattr(est, "estimate_channel_freq_domain"), [Y, L])
+            if flat:
+                Y = Y.reshape(2 * N) if ant == 1 else Y.reshape(ant, 2 * N)
+            Y = np.ascontiguousarray(Y)
+            shape0, items0 = Y.shape, list(Y.flat)
+            args = [Y, L, False] if flat else [Y, L]
+            out = it.call(it.getattr(est, "estimate_channel_freq_domain"), args)
         want = Hf if ant == 2 else Hf[0]
         goals = [Goal("estimate shape", np.shape(out) == np.shape(want))]
         if goals[0].cond:
             goals.append(Goal("estimate == DFT of the channel taps", _meq(out, want)))
+        if variant == "occ":
+            same = Y.shape == shape0 and all(a is b for a, b in zip(Y.flat, items0))
+            goals.append(Goal("caller's receive buffer untouched (shape %s, entries)" % (shape0,), same))
+            try:
+                out2 = it.call(it.getattr(est, "estimate_channel_freq_domain"), args)
+                goals.append(Goal("second estimate from the same buffer == first", np.shape(out2) == np.shape(want) and _meq(out2, want)))
+            except PyRaise as pr:
+                goals.append(Goal("second estimate from the same buffer raised %r" % (pr.exc,), False))
         return goals
     return verify(body, check_side=False, timeout_ms=120000)
 
@@ -240,7 +262,7 @@ def ob_prime():
         if size in (12, 24):
             return None if rs.Nzc == size else {"Nzc": rs.Nzc}
         p = rs.Nzc
-        if not _is_prime(p) or p > size or any(_is_prime(q) for q in range(p + 1, size + 1)):
+        if not _is_prime(p) or (not (p <= size)) or any(_is_prime(q) for q in range(p + 1, size + 1)):
             return {"Nzc": p, "largest prime <= size": max(q for q in range(2, size + 1) if _is_prime(q))}
         return None
     return exhaustive([{"size": s} for s in [12, 24] + list(range(25, 1201))], check)
@@ -275,21 +297,21 @@ def ob_cazac():
                     continue
                 seqs = [cls(root, n).seq_array() for n in range(shifts)]
                 G = np.array([[abs(np.vdot(a, b)) for b in seqs] for a in seqs])
-                if np.abs(G - np.diag(np.diag(G))).max() > 1e-9 * size:
+                if (not (np.abs(G - np.diag(np.diag(G))).max() <= 1e-9 * size)):
                     return {"shifts not orthogonal": cls.__name__, "size": size}
             return None
         N, u = case["N"], case["u"]
         a = calcBaseZC(N, u)
-        if np.abs(np.abs(a) - 1).max() > 1e-12:
+        if (not (np.abs(np.abs(a) - 1).max() <= 1e-12)):
             return {"amplitude": float(np.abs(np.abs(a) - 1).max())}
         A = np.fft.fft(a)
-        if np.abs(np.abs(A) - math.sqrt(N)).max() > 1e-9 * N:
+        if (not (np.abs(np.abs(A) - math.sqrt(N)).max() <= 1e-9 * N)):
             return {"spectrum not flat": float(np.abs(np.abs(A) - math.sqrt(N)).max())}
         ac = np.fft.ifft(A * A.conj())
-        if np.abs(ac[1:]).max() > 1e-9 * N:
+        if (not (np.abs(ac[1:]).max() <= 1e-9 * N)):
             return {"autocorrelation": float(np.abs(ac[1:]).max())}
         e = get_extended_ZF(a, N + 7)
-        if e.size != N + 7 or np.abs(e - a[np.arange(N + 7) % N]).max() > 0:
+        if e.size != N + 7 or (not (np.abs(e - a[np.arange(N + 7) % N]).max() <= 0)):
             return {"extension": True}
         return None
     return bounded(gen(), check)
@@ -328,7 +350,7 @@ def ob_est_native():
             seqs = [DmrsUeSequence(root, n, normalize=norm) for n in users]
         else:
             seqs = [DmrsUeSequence(root, n, cover_code=np.array([1, [-1, 1][rr.randint(2)]]), normalize=norm) for n in users]
-        if np.abs(root.seq_array() - root_before).max() > 0 or np.abs(np.abs(root.seq_array()) - 1).max() > 1e-9:
+        if (not (np.abs(root.seq_array() - root_before).max() <= 0)) or (not (np.abs(np.abs(root.seq_array()) - 1).max() <= 1e-9)):
             return {"root sequence modified by creating user sequences": True}
         taps = [(rr.randn(ant, L) + 1j * rr.randn(ant, L)) for _ in users]
         Hf = [np.fft.fft(t, size) for t in taps]
@@ -355,7 +377,7 @@ def ob_est_native():
                 return {"shape": [list(got.shape), list(want.shape)]}
             if case["kind"] == "occ" and len(users) > 1:
                 continue        # users separated by different cover codes share shifts only by construction above; single-user exactness checked
-            if np.abs(got - want).max() > 1e-8 * max(1.0, np.abs(want).max()):
+            if (not (np.abs(got - want).max() <= 1e-8 * max(1.0, np.abs(want).max()))):
                 return {"kind": case["kind"], "normalised": norm, "users": users, "user": users[ui], "antennas": ant, "taps": L,
                         "max error": float(np.abs(got - want).max()), "scale |est|/|H|": float(np.abs(got).max() / max(np.abs(want).max(), 1e-300))}
         return None
